@@ -14,7 +14,7 @@ def allBranches : List String :=
    "x:step2-nowrap", "x:step2-fits", "x:step3-nextword-empty", "x:step3-no-collapse", "x:step3-char-not-space",
    "x:step3-retry-fits", "x:step3-retry-wraps", "x:step3-retry-empty-first-line", "x:step3-overflow-no-nextword",
    "s3:first-line-fits", "s3:first-line-overflows", "s3:breakpoint-none", "s3:breakpoint-negative",
-   "s3:breakpoint-zero", "s3:breakpoint-positive", "s5:rewrap", "s5:rewrap-unconstrained", "s5:no",
+   "s3:breakpoint-zero", "s3:breakpoint-positive", "s5:rewrap", "s5:rewrap-clamped", "s5:no",
    "r:none", "r:newline", "r:space", "r:inside-word", "error"]
 
 /-- tags of step 5 -/
@@ -22,7 +22,7 @@ def step5Tags (st : Style) (maxW : MaxW) (a b : Bool) (line : Line) : List Strin
   match maxW with
   | .fin W =>
     if W - line.width < 0 ∧ canBreakWord st a b = true then
-      (if truncZ (W * 1024) < 0 then ["s5:rewrap-unconstrained"] else ["s5:rewrap"])
+      (if W < 0 then ["s5:rewrap-clamped"] else ["s5:rewrap"])
     else ["s5:no"]
   | _ => ["s5:no"]
 
